@@ -45,14 +45,12 @@ NoViews == [x \in {} |-> <<>>]
 Pre(r, d, L) == (IF IsNone(r) THEN <<160>> ELSE Ser(r)) \o (IF IsNone(d) THEN <<>> ELSE Ser(d)) \o Ser(LangViews(L))
 HasHash(r, d) == ~(IsNone(r) /\ IsNone(d))
 
-(* Which views enter: the ledger computes the languages from the scripts the *)
-(* redeemers run; without redeemers there are none (the CDDL's A0|datums|A0  *)
-(* case).  The property text does not say what a caller-supplied view set    *)
-(* means in that case, so both readings are acceptable pre-images.           *)
-Acceptable(r, d, L) ==
-    IF ~HasHash(r, d) THEN {}
-    ELSE IF IsNone(r) /\ DOMAIN L # {} THEN {Pre(r, d, L), Pre(r, d, NoViews)}
-    ELSE {Pre(r, d, L)}
+(* Which views enter: the ledger takes the views of the languages of the     *)
+(* scripts the redeemers run; a witness set without redeemers runs none, so  *)
+(* the view part is the empty map whatever cost models the caller has at     *)
+(* hand - the CDDL states this case explicitly: [ A0 | datums | A0 ].        *)
+EffViews(r, L) == IF IsNone(r) THEN NoViews ELSE L
+Acceptable(r, d, L) == IF ~HasHash(r, d) THEN {} ELSE {Pre(r, d, EffViews(r, L))}
 
 \* the same from raw parts (real transactions): rb / db are the redeemer / datum bytes as they appeared (<<>> = absent)
 PreRaw(rb, db, L) == (IF rb = <<>> THEN <<160>> ELSE rb) \o db \o Ser(LangViews(L))
